@@ -209,6 +209,7 @@ package dns
 
 //@ extern strconv.ParseUint
 //@   ensures ret1 == nil ==> len(s) > 0
+//@   ensures range: ret1 == nil ==> 0 <= ret0 && (bitSize == 8 ==> ret0 <= 255) && (bitSize == 16 ==> ret0 <= 65535) && (bitSize == 32 ==> ret0 <= 4294967295)
 //@   pure
 //@ extern strconv.ParseInt
 //@   ensures ret1 == nil ==> len(s) > 0
